@@ -74,9 +74,11 @@ LEAN = {"module": "Pygom.Props.C20",
                      "Pygom.C20.ffTrue_is_total_derivative_of_sens_rhs", "Pygom.C20.ff_rhs_terms_independent",
                      "Pygom.C20.ff_asFound_entry", "Pygom.C20.ff_rhs_asFound_partial", "Pygom.C20.ff_rhs_asFound_counterexample",
                      "Pygom.C20.hessianH_entry", "Pygom.C20.hessian_is_second_derivative_partial",
-                     "Pygom.C20.hessian_asFound_sign_counterexample"]}
-BUDGET = {"quick": {"catalogue": 12, "additive": 8, "general": 12, "products": 10, "one_state": 2, "select": 144, "timedep": 32},
-          "thorough": {"catalogue": 120, "additive": 120, "general": 200, "products": 120, "one_state": 12, "select": 1440, "timedep": 320}}
+                     "Pygom.C20.hessian_asFound_sign_counterexample",
+                     "Pygom.C20.scatter_entry", "Pygom.C20.scatter_sum", "Pygom.C20.scatterAsFound_eq_of_nodup",
+                     "Pygom.C20.scatter_asFound_counterexample", "Pygom.C20.hessian_overwrite_asFound_counterexample"]}
+BUDGET = {"quick": {"catalogue": 12, "additive": 8, "general": 12, "products": 10, "one_state": 2, "select": 144, "timedep": 32, "duplicate": 18},
+          "thorough": {"catalogue": 120, "additive": 120, "general": 200, "products": 120, "one_state": 12, "select": 1440, "timedep": 320, "duplicate": 180}}
 RULE = ("SquareLoss on SIR / SEIR / SIR_norm and on random bounded models (2-4 states, 1-3 free parameters; 'additive' models have "
         "no second derivative involving a parameter: free parameters enter as constant birth rates; 'general' ones multiply parameters "
         "by states, by each other through symbolic magnitudes, and divide by 1+b*Y; 'products' ones always contain a rate a*b*X "
@@ -98,7 +100,12 @@ RULE = ("SquareLoss on SIR / SEIR / SIR_norm and on random bounded models (2-4 s
         "one and target_param through None / all-permuted / subset-permuted, weights per-state or n x p with different columns, one weight "
         "exactly 0 or exactly 1, single observation time (one observed state), a parameter exactly 0 (tags select:*, boundary:*); a quarter "
         "of them carry a session; `timedep` cases: every (model, window shape) pair of losscommon.TD_CATALOGUE x TD_SHAPES in turn, the "
-        "windowed parameter always free, pointwise right-hand-side comparison at a time inside the window")
+        "windowed parameter always free, pointwise right-hand-side comparison at a time inside the window.  ROUND D: `duplicate` cases - a state "
+        "OBSERVED MORE THAN ONCE (replicate series: state_name=['I','I'], ['I','S','I'], ['S','S','S'], ...; one data column per entry), the copies "
+        "with equal weights / DIFFERENT per-state weights / n x p weight matrix / none / scalar / a weight exactly 0 for one copy, target_param "
+        "None / permuted / subset, on SIR_norm, products / general models and the time-dependent catalogue in turn; jtj, hessian, both "
+        "full_output dictionaries AND cost / gradient are judged by the same direct oracle (sum over the observed COLUMNS); the Lean "
+        "`hessian` is fed the repeated `_stateIndex` (tags duplicate:*, hessian-assembly:agrees)")
 ASSUMPTIONS = ["integrating the sensitivity systems yields the derivatives of the solution (as in C13); scipy integrators within tolerance",
                "the finite-difference Hessian of the reference cost is accurate to ~1e-6 relative (Richardson on 1e-12 solutions); "
                "comparisons use 1e-3 relative",
@@ -315,6 +322,69 @@ def _timedep_case(r, i):
     return c
 
 
+def _duplicate_case(r, i):
+    """ROUND D (housekeeping after /repo fix 9e5845f, `np.add.at` in hessian): a state observed MORE THAN ONCE.  Systematic in i:
+    source model (SIR_norm / products / general / time-dependent catalogue), pattern of the repetition, weights of the copies,
+    target selection.  Everything is judged by the direct oracle of run_case, which takes one data column, one weight column and
+    one sensitivity block PER ENTRY of state_name (`oidx` may repeat)."""
+    src, j = i % 4, i // 4
+    if src == 0:
+        c = {"kind": "catalogue", "name": "SIR_norm", "states": ["S", "I", "R"], "params": ["beta", "gamma"],
+             "theta": [r.uniform(0.8, 2.0), r.uniform(0.2, 0.6)], "x0": [0.9, 0.1, 0.0], "T": 6.0}
+    elif src == 2:
+        names = [k for k in sorted(LC.TD_CATALOGUE) if len(LC.TD_CATALOGUE[k]["states"]) <= 3 or k == "SIR_constN"]
+        c = _td_case_c20(r, names[j % len(names)], r.choice(sorted(LC.TD_SHAPES)))
+    else:
+        fn = _product_model if src == 1 else _general_model
+        for _ in range(20):
+            spec, states, params = fn(r)
+            if len(states) <= 3:
+                break
+        c = {"kind": "products" if src == 1 else "general", "spec": spec, "states": states, "params": params,
+             "theta": [r.randint(5, 60) / 100.0 for _ in params], "x0": [r.randint(5, 20) / 10.0 for _ in states], "T": r.choice([1.0, 2.0])}
+    states, params = c["states"], c["params"]
+    nS, nP = len(states), len(params)
+    a = states[r.randrange(nS)]
+    others = [s_ for s_ in states if s_ != a]
+    b = r.choice(others) if others else a
+    pat = ["twice", "twice-around-another", "twice-after-another", "thrice", "two-pairs", "twice-before-another"][j % 6]
+    obs = {"twice": [a, a], "twice-around-another": [a, b, a], "twice-after-another": [b, a, a], "thrice": [a, a, a],
+           "two-pairs": [a, b, b, a], "twice-before-another": [a, a, b]}[pat]
+    nobs = len(obs)
+    n = r.randint(5, 8)
+    wm = (j // 6 + j) % 5
+    bnd = []
+    base = [r.choice([0.5, 1.5, 2.0, 3.0]) for _ in obs]
+    first, last = obs.index(a), nobs - 1 - obs[::-1].index(a)
+    if wm in (0, 1, 4) and base[first] == base[last]:
+        base[last] = base[first] + 1.0                   # the copies of one state carry DIFFERENT weights
+    if wm == 0:
+        wk, w = "per_state", base
+    elif wm == 1:
+        wk, w = "full", [[v * r.choice([0.5, 1.0, 1.5, 2.0]) for v in base] for _ in range(n)]
+    elif wm == 2:
+        wk, w = "none", None
+    elif wm == 3:
+        wk, w = "scalar", r.choice([0.5, 2.0, 3.0])
+    else:
+        base[r.choice([first, last])] = 0.0
+        wk, w = "per_state", base
+        bnd.append("weight-zero-for-one-copy")
+    tm = (j // 2) % 3
+    if tm == 0 or nP == 1:
+        tgt = None
+    elif tm == 1:
+        pp = _perms(params)
+        tgt = pp[j % len(pp)]
+    else:
+        tgt = sorted(r.sample(params, r.randint(1, nP - 1)), key=params.index, reverse=True)
+    c.update({"obs": obs, "target": tgt, "weights": w, "wkind": wk, "n": n, "noise_seed": r.getrandbits(31), "boundary": bnd,
+              "family": "duplicate", "duplicate": pat})
+    if r.random() < 0.25:
+        _session_setup(r, c)
+    return c
+
+
 EVAL_FNS = ["jtj", "jtj", "jtj_full", "hessian", "hessian_full"]
 THETA_FORMS = ["list", "tuple", "array", "npscalars", "none"]
 IV_ENTRIES = ["costIV", "costIV", "residualIV", "diff_lossIV", "sensitivityIV"]
@@ -407,6 +477,9 @@ def make_cases(rng, tier, budget):
     for i in range(budget.get("timedep", 0)):
         r = random.Random(rng.getrandbits(64))
         cases.append(_timedep_case(r, i + shift))
+    for i in range(budget.get("duplicate", 0)):       # after everything above: the earlier families are the same as before
+        r = random.Random(rng.getrandbits(64))
+        cases.append(_duplicate_case(r, i + 4 * shift))
     return cases
 
 
@@ -734,9 +807,12 @@ def run_case(case):
     if case.get("family"):
         tags.append("family:" + case["family"])
     tags += ["boundary:" + b for b in case.get("boundary", [])]
-    if p_ == nS and nS > 1:
+    dup = len(set(oidx)) < p_
+    if dup:
+        tags += ["duplicate:observed-state-repeated", "duplicate:" + case.get("duplicate", "?")]
+    if p_ == nS and nS > 1 and not dup:
         tags.append("select:all-states-observed:" + ("declared-order" if obs == states else "permuted") + (":target-none" if tgt is None else ""))
-    elif p_ > 1 and oidx != sorted(oidx):
+    elif p_ > 1 and oidx != sorted(oidx) and not dup:
         tags.append("select:subset-of-states:permuted")
     if tgt is not None and nT == nP and nP > 1:
         tags.append("select:target_param-all:" + ("declared-order" if tgt == params else "permuted"))
@@ -936,6 +1012,25 @@ def run_case(case):
                              "detail": worst(np.asarray(got, float).reshape(ref.shape) if np.asarray(got, float).size == ref.size else np.asarray(got, float), ref)
                              + " weights=%s" % case.get("wkind")})
 
+    # ---- a state observed more than once: the cost and the gradient the curvature is meant to describe (sum over the observed
+    # COLUMNS, one data / weight column per entry of state_name) - judged here only for these selections (C06 / C07 own the rest)
+    if dup:
+        loose = 1e-4 if case["kind"] == "td" else 1e-6
+        for nm, f_, ref_, tol_ in (("cost", lambda: L.cost(th_arg), np.array(ob["cost"]), loose * (1.0 + ob["cost"])),
+                                   ("gradient", lambda: L.gradient(th_arg), ob["grad"],
+                                    1e-5 * (float(np.max(np.abs(ob["grad"]))) + 1e-300) + loose * (1.0 + ob["cost"]))):
+            try:
+                got = np.asarray(f_(), float)
+            except Exception as exc:
+                viol.append({"what": "%s raised %s: %s" % (nm, type(exc).__name__, str(exc)[:160]), "signature": nm + ":duplicate-observed-state:raises", "detail": "obs=%s" % obs})
+                continue
+            if got.size != ref_.size or not close_arr(got.reshape(ref_.shape), ref_, 0, tol_):
+                viol.append({"what": "%s(theta) with a state observed more than once is not the %s of the weighted square loss summed over every observed column"
+                                     % (nm, nm), "signature": nm + ":duplicate-observed-state:value",
+                             "detail": (worst(got.reshape(ref_.shape), ref_) if got.size == ref_.size else "shape %s" % (got.shape,)) + " obs=%s weights=%s" % (obs, case.get("wkind"))})
+            else:
+                tags.append("duplicate:%s-agrees" % nm)
+
     # ---- jtj
     nviol_before_jtj = len(viol)
     scaleJ = float(np.max(np.abs(JTJ_true))) + 1e-300
@@ -1066,10 +1161,12 @@ def run_case(case):
             lv = to_float(layout("hessian", variant="source", **a2)).reshape(nT, nT)
             if not close_arr(Hf, lv, 1e-9, 1e-9 * scaleH + 1e-12):
                 lva = to_float(layout("hessian", variant="as_found", **a2)).reshape(nT, nT)
-                mism.append({"what": "hessian assembly vs Lean Sens.hessian" + (" (equals Sens.hessianAsFound)" if close_arr(Hf, lva, 1e-9, 1e-9 * scaleH + 1e-12) else ""),
+                lvo = to_float(layout("hessian", variant="overwrite", **a2)).reshape(nT, nT)
+                mism.append({"what": "hessian assembly vs Lean Sens.hessian" + (" (equals Sens.hessianAsFound)" if close_arr(Hf, lva, 1e-9, 1e-9 * scaleH + 1e-12) else
+                                                                                " (equals Sens.hessianOverwrite: buffered += over repeated observed states)" if close_arr(Hf, lvo, 1e-9, 1e-9 * scaleH + 1e-12) else ""),
                              "detail": worst(Hf, lv)})
             else:
-                tags.append("hessian-assembly:agrees")
+                tags.append("hessian-assembly:agrees" + (":repeated-stateIndex" if dup else ""))
         except Exception as exc:
             Hf = o2 = None
             mism.append({"what": "hessian(full_output=True) raised", "detail": "%s: %s" % (type(exc).__name__, str(exc)[:200])})
@@ -1117,6 +1214,11 @@ def run_case(case):
                 viol.append({"what": "hessian omits the second derivatives of the ODE that involve a parameter (value = the as-found forward-forward "
                                      "system without the grad_jacobian / grad_grad terms, integrated independently)",
                              "signature": SIG_MIXED, "detail": worst(Hp, H_true) + " ; vs as-found prediction: " + worst(Hp, H_af) + " terms=%s" % sorted(terms)})
+                classified = True
+            elif dup and sol_tr is not None and close_arr(Hp, _assemble(sol_tr, "overwrite"), 0, tolH):
+                viol.append({"what": "hessian keeps only the LAST column of a state that is observed more than once in its second-order term "
+                                     "(buffered E[stateIndex] += ... instead of np.add.at; Lean: hessian_overwrite_asFound_counterexample)",
+                             "signature": "hessian:duplicate-observed-state:last-column-only", "detail": worst(Hp, H_true) + " obs=%s weights=%s" % (obs, case.get("wkind"))})
                 classified = True
             elif H_sign is not None and close_arr(Hp, H_sign, 0, tolH):
                 viol.append({"what": "hessian has the wrong sign (and weight power) on its second-order term: value = 2*JTJ - sum diff_loss*X",
